@@ -1,4 +1,4 @@
-CONSTANTS N = 4 W <- W2211 None <- NoneV MaxSeq = 6 MaxEv = 20 Forkers <- NoForkers HeadsOnly = TRUE LazyFrames = FALSE MaxOthers = 3
+CONSTANTS N = 4 W <- W2211 None <- NoneV Rule <- StdRule MaxSeq = 6 MaxEv = 20 Forkers <- NoForkers HeadsOnly = TRUE LazyFrames = FALSE MaxOthers = 3
 SPECIFICATION Spec
 INVARIANTS NoTie
 CHECK_DEADLOCK FALSE
